@@ -167,7 +167,7 @@ class SolveProperty(Property):
                     if not labels:
                         continue
                     arglists = self.pick_args(rng, labels)
-                    if len(arglists) > 4:
+                    if len(arglists) > 4 and not self.multi:
                         arglists = rng.sample(arglists, 4)
                     for args in arglists:
                         lines.append("solve x fw=%s sem=%s enc=%s task=%s cert=%d args=%s" % (
@@ -314,4 +314,41 @@ class C07(SolveProperty):
     tasks = ["DC", "DS"]
     certs = [0, 1]
     multi = True
-    rule = C01.rule + "; argument lists of length 1-3 with repetition, drawn over all components; both the certificate and the certificate-less entry point"
+    rule = C01.rule + ("; argument lists of length 1-3 with repetition, drawn over all components; both the certificate and the certificate-less entry point; "
+                       "plus disjoint unions of 2-4 small components (isolated arguments, chains, even and odd cycles, random 2-3 argument graphs) queried with many ordered "
+                       "pairs and triples so that accepted / rejected arguments of different components occur in every order")
+
+    def frameworks(self, tier, rng):
+        fws = SolveProperty.frameworks(self, tier, rng)
+        for _ in range(60 if tier == "quick" else 1500):
+            parts = []
+            for _ in range(rng.randint(2, 4)):
+                k = rng.choice(["iso", "chain2", "chain3", "cyc2", "cyc3", "rand2", "rand3"])
+                if k == "iso":
+                    parts.append((1, []))
+                elif k == "chain2":
+                    parts.append((2, gen.chain(2)))
+                elif k == "chain3":
+                    parts.append((3, gen.chain(3)))
+                elif k == "cyc2":
+                    parts.append((2, gen.cycle(2)))
+                elif k == "cyc3":
+                    parts.append((3, gen.cycle(3)))
+                elif k == "rand2":
+                    parts.append(gen.rand_af(rng, 2))
+                else:
+                    parts.append(gen.rand_af(rng, 3))
+            n, atts = gen.disjoint_union(parts)
+            if n <= 9:
+                fws.append((n, atts))
+        return fws
+
+    def pick_args(self, rng, labels):
+        out = SolveProperty.pick_args(self, rng, labels)
+        if 2 <= len(labels) <= 9:
+            pairs = [[a, b] for a in labels for b in labels if a != b]
+            out += rng.sample(pairs, min(len(pairs), 6))
+            if len(labels) >= 3:
+                for _ in range(2):
+                    out.append(rng.sample(labels, 3))
+        return out
